@@ -302,8 +302,7 @@ class ValuationOracle(Oracle):
                         dropped = sum((reported[n] * (1 - exp["markets"][n]["conv"]) for n in sub), Decimal(0))
                     if abs(resid - dropped) <= tol_sum:
                         kinds = "+".join(sorted({self.kinds[n] for n in sub}))
-                        quotes = "+".join(sorted({exp["markets"][n]["quote"] for n in sub}))
-                        cause = f"value_of_{kinds}_market_not_converted:{quotes}->{self.account_quote}"
+                        cause = f"value_of_{kinds}_market_not_converted"
                         break
                 sim.violate(OID + ".net_value", f"{where}:total:{cause}", row=bar, ts=exp["ts"], got=nv, want=_s(total), diff=_s(resid),
                             account_quote=self.account_quote, conversions={n: [e["quote"], _s(e["conv"])] for n, e in exp["markets"].items()})
